@@ -125,6 +125,29 @@ def gen_value(rng, depth, toml=False):
     return [gen_value(rng, depth - 1, toml) for _ in range(n)]
 
 
+def _tuplify(v, rng):
+    if isinstance(v, dict):
+        return {k: _tuplify(x, rng) for k, x in v.items()}
+    if isinstance(v, list):
+        items = [_tuplify(x, rng) for x in v]
+        return tuple(items) if rng.random() < 0.6 else items
+    return v
+
+
+def _listify(v):
+    if isinstance(v, dict):
+        return {k: _listify(x) for k, x in v.items()}
+    if isinstance(v, (list, tuple)):
+        return [_listify(x) for x in v]
+    return v
+
+
+def _follow_any(v, p):
+    for seg in p:
+        v = v[int(seg)] if isinstance(v, (list, tuple)) else v[seg]
+    return v
+
+
 def valid_paths(v, prefix=()):
     out = []
     if isinstance(v, dict):
@@ -143,6 +166,10 @@ def gen_spec(rng, target, depth, nested=False):
     paths = ['.'.join(p) for p in valid_paths(target)]
     r = rng.random()
     if depth <= 0 or r < 0.35 or not paths:
+        if rng.random() < 0.12:
+            # wildcard segments in a (bare) path string mean what they mean to glom()
+            base = rng.choice(paths) if paths and rng.random() < 0.6 else None
+            return rng.choice(['*', '**'] if base is None else [base + '.*', base + '.**', '*.' + base.split('.')[-1], '**.' + base.split('.')[-1]])
         if paths and rng.random() < 0.8:
             return rng.choice(paths)
         if nested and rng.random() < 0.3:
@@ -217,6 +244,22 @@ def render_target(target, fmt):
     return toml_dumps(target)
 
 
+def _load(fmt, text):
+    if fmt == 'json':
+        return json.loads(text)
+    if fmt == 'python':
+        import ast
+        return ast.literal_eval(text)
+    if fmt == 'yaml':
+        import yaml
+        return yaml.safe_load(text)
+    try:
+        import tomllib
+    except ImportError:
+        import tomli as tomllib
+    return tomllib.loads(text)
+
+
 def library_expectation(target, spec, indent, scalar):
     """(status, stdout) the CLI must produce, or None to skip"""
     o = call(glom_pkg.glom, target, spec)
@@ -258,6 +301,13 @@ def cli_case(col, rng, tmpdir, watch):
         spec, spec_text, spec_fmt = _Path(), '', 'python'
     if spec_text.startswith('-') or (not spec_text and not empty_spec):
         return
+    if fmt == 'python' and rng.random() < 0.4:
+        target = _tuplify(target, rng)        # (only Python literals can say tuple: the library result then holds tuples too)
+        tuple_paths = ['.'.join(p) for p in valid_paths(_listify(target)) if isinstance(_follow_any(target, p), tuple)]
+        if tuple_paths and not empty_spec and rng.random() < 0.5:
+            # --scalar with a result that is a tuple: not a scalar, printed as JSON like any other container
+            spec, spec_fmt, scalar = rng.choice(tuple_paths), 'python', True
+            spec_text = spec if not spec.startswith(('-', '"', "'", '[', '{', '(')) else repr(spec)
     try:
         target_text = render_target(target, fmt)
     except Exception:
@@ -274,7 +324,13 @@ def cli_case(col, rng, tmpdir, watch):
     elif pad < 0.3 and fmt == 'yaml' and isinstance(target, dict) and target:
         target_text = ''.join('  ' + ln + '\n' for ln in target_text.splitlines())
     eff_indent = 2 if indent is None else indent
-    want = library_expectation(target, spec, eff_indent, scalar)
+    # the library result is computed on the target as its loader reads the text (key order is the document's: yaml.safe_dump
+    # and TOML tables do not keep the order of the dict they were rendered from, and wildcards enumerate in document order)
+    try:
+        loaded = _load(fmt, target_text)
+    except Exception:
+        return
+    want = library_expectation(loaded, spec, eff_indent, scalar)
     if want is None:
         col.count('skipped_unserialisable')
         return
